@@ -102,13 +102,15 @@ def run(ctx):
                 else:
                     ctx.check("C10.2", nrow is None, fi, node, f"EDFA [{case}] noise rows kept", "both rows amplified", "a noise row of a two-polarisation input is cleared")
         # ---- ASE
-        randn = [r for r in it.calls if r.callee == "numpy.random.randn" and r.depth == 0]
+        randn = [r for r in it.calls if r.callee in ("numpy.random.randn", "numpy.random.standard_normal", "numpy.random.normal") and r.depth == 0]
         if len(randn) != 1:
             ctx.violation("C10.3", fi, node, f"EDFA [{case}] ASE draws", f"expected one randn(4, N) draw, found {len(randn)}")
             continue
         r = randn[0]
-        n_arg = r.args[1] if len(r.args) > 1 else None
-        ok = len(r.args) == 2 and r.args[0] == Form.num(4) and isinstance(n_arg, Form) and n_arg == mk_fn("siglen", [S("input.signal")])
+        ra = r.result.single_atom() if isinstance(r.result, Form) else None   # canonical form: standard_normal((4, N)) == randn(4, N)
+        rargs = list(ra[2]) if ra and ra[0] == "fn" and ra[1] == "numpy.random.randn" and not ra[3] else []
+        n_arg = rargs[1] if len(rargs) > 1 else None
+        ok = len(rargs) == 2 and rargs[0] == Form.num(4) and isinstance(n_arg, Form) and n_arg == mk_fn("siglen", [S("input.signal")])
         ctx.check("C10.3", ok, fi, r.node, src_of(r.node), "four independent real rows of N samples", "ASE draw is not randn(4, N): the four quadratures are not independent rows of the input length")
         X = fpow(P_ase / 4, Fraction(1, 2)) * r.result
         want = Form.atom(("idx", X, SliceV(Const(None), Form.num(2), Const(None)))) + Form.num(0, 1) * Form.atom(("idx", X, SliceV(Form.num(2), Const(None), Const(None))))
